@@ -249,7 +249,10 @@ def repair (b : Basis K) (knots1 : Array K) (mu : ℕ) : Array K :=
 /-- the value actually inserted (periodic wrap / range check) -/
 def wrapX [FloorRing K] (b : Basis K) (x0 : K) : PyM K :=
   if b.periodic ≥ 0 then
-    .ok (if x0 < b.start ∨ x0 > b.stop then pmod (x0 - b.start) (b.stop - b.start) + b.start else x0)
+    if x0 < b.start ∨ x0 > b.stop then
+      if b.stop - b.start = 0 then .error .index
+      else .ok (pmod (x0 - b.start) (b.stop - b.start) + b.start)
+    else .ok x0
   else if x0 < b.start ∨ b.stop < x0 then .error .value
   else .ok x0
 
